@@ -426,3 +426,287 @@ class C12(Check):
 
 
 CHECK = C12()
+
+
+# =========================================================================== (3) exactly-once delivery (rely/guarantee)
+class LockEnv(E.EnvClass):
+    """asyncio.Lock used as `async with`: acquiring is an await (other tasks may run), releasing is not"""
+    name = "AsyncioLock"
+
+    def __init__(self):
+        self.methods = {"__aenter__": E.is_async(self.enter), "__aexit__": E.is_async(lambda I, r, a, k, exc=None: V.FALSE)}
+
+    def enter(self, I, recv, args, kwargs):
+        E.checkpoint_nofire(I)
+        return recv
+
+
+class PostResponse(E.EnvClass):
+    name = "SsePostResponse"
+
+    def __init__(self):
+        self.methods = {"json": self.json}
+
+    def json(self, I, recv, args, kwargs):
+        c = I.c12
+        if c.mode == "body_200":
+            return c.answer
+        if I.choose_n(2, "json_outcome") == 1:
+            raise PyRaise(I.make_exc("JSONDecodeError", V.VStr("no json")), "JSONDecodeError")
+        d = I.fresh("other_body")
+        I.assume(z3.And(V.is_dict(d), Val.dsize(d) >= 0))
+        # a non-200/202 reply is not the answer to the request (the server answers at most once, in a 200 body or
+        # on the event stream): whatever it carries, it does not bear the request id
+        I.assume(z3.Or(z3.Not(z3.Select(Val.dkeys(d), K("id"))), z3.Select(Val.dvals(d), K("id")) != c.rid))
+        return d
+
+
+class SendClient(E.EnvClass):
+    name = "SseSendClient"
+
+    def __init__(self):
+        self.methods = {"post": E.is_async(self.post)}
+
+    def post(self, I, recv, args, kwargs):
+        c = I.c12
+        c.posts += 1
+        if c.mode in ("event_then_ack", "ack_then_event"):
+            I.ghost["answer_state"] = "in_flight"          # the server has the request: its stream answer may come now
+        if c.mode == "ack_then_event":
+            hooks, I.checkpoint_hooks = getattr(I, "checkpoint_hooks", []), []
+            E.checkpoint_nofire(I)                          # the acknowledgement comes back first
+            I.checkpoint_hooks = hooks
+        else:
+            E.checkpoint_nofire(I)                          # the reader may handle the event during the POST
+        if c.mode == "exception":
+            raise PyRaise(I.make_exc("AnyException", V.VStr(I.fresh("netmsg", S))), "AnyException")
+        status = {"body_200": 200, "event_then_ack": 202, "ack_then_event": 202, "silence": 202}.get(c.mode)
+        if status is None:
+            st = I.fresh_int("status")
+            I.assume(z3.And(st >= 100, st <= 599, st != 200, st != 202))
+            sv = V.VInt(st)
+        else:
+            sv = V.VInt(status)
+        return E.new_env_object(I, POST_RESPONSE, status_code=sv, text=V.VStr(I.fresh("body_text", S)))
+
+
+LOCK, POST_RESPONSE, SEND_CLIENT = LockEnv(), PostResponse(), SendClient()
+
+
+class ResolvableFuture(FutureEnv):
+    name = "AsyncioFuture"
+
+    def __init__(self):
+        super().__init__()
+        self.methods["set_result"] = self.set_result
+
+    def set_result(self, I, recv, args, kwargs):
+        I.set_attr(recv, "done_flag", V.TRUE)
+        I.set_attr(recv, "result", args[0])
+        I.set_attr(recv, "has_result", V.TRUE)
+        return V.NONE
+
+    def construct(self, I, args, kwargs, node):
+        return E.new_env_object(I, FUTURE12, done_flag=V.FALSE, has_result=V.FALSE, result=V.NONE)
+
+
+FUTURE12 = ResolvableFuture()
+
+
+def reader_step(I):
+    """guarantee G of the event-stream task (_handle_message_event), executed atomically at an await of the sender
+    when the request's single stream answer arrives: if the request is pending, pop it and resolve its future (if not
+    done) delivering nothing; otherwise deliver the event."""
+    c = I.c12
+    if I.ghost.get("answer_state") != "in_flight":
+        return
+    if I.choose_n(2, "stream_answer_arrives_now") == 1:
+        return
+    I.ghost["answer_state"] = "handled"
+    P, _ = I.get_field(c.transport, "_pending_requests")
+    key = c.mid_str
+    if I.choose(z3.Select(Val.dkeys(P), key), "reader_finds_request_pending"):
+        fut = z3.simplify(z3.Select(Val.dvals(P), key))
+        newP = Val.dict(Val.did(P), z3.Store(Val.dkeys(P), key, False), z3.Store(Val.dvals(P), key, V.NONE),
+                        Val.dsize(P) - 1)
+        I.set_attr(c.transport, "_pending_requests", newP)
+        done, _ = I.get_field(fut, "done_flag")
+        if not I.choose(V.truthy(done), "future_already_done"):
+            I.set_attr(fut, "done_flag", V.TRUE)
+            I.set_attr(fut, "result", c.answer)
+            I.set_attr(fut, "has_result", V.TRUE)
+    else:
+        c.deliver(I, c.answer)
+
+
+def x_wait_for_future(I, args, kwargs, node):
+    """asyncio.wait_for(future, timeout): returns the future's result; while blocked the reader may resolve it; on
+    timeout the future is cancelled and TimeoutError raised.  Assumption from the property's modes: a stream answer,
+    if there is one, arrives before the timeout."""
+    c = I.c12
+    fut = args[0]
+    has, _ = I.get_field(fut, "has_result")
+    if I.choose(V.truthy(has), "future_resolved_before_wait"):
+        E.checkpoint_nofire(I)
+        return I.get_field(fut, "result")[0]
+    if I.ghost.get("answer_state") == "in_flight":
+        # blocked; the answer arrives during the wait and the reader handles it (G)
+        hooks, I.checkpoint_hooks = getattr(I, "checkpoint_hooks", []), []
+        E.checkpoint_nofire(I)
+        I.checkpoint_hooks = hooks
+        I.ghost["answer_state"] = "handled"
+        P, _ = I.get_field(c.transport, "_pending_requests")
+        key = c.mid_str
+        if I.choose(z3.Select(Val.dkeys(P), key), "reader_finds_request_pending"):
+            newP = Val.dict(Val.did(P), z3.Store(Val.dkeys(P), key, False), z3.Store(Val.dvals(P), key, V.NONE),
+                            Val.dsize(P) - 1)
+            I.set_attr(c.transport, "_pending_requests", newP)
+            popped = z3.simplify(z3.Select(Val.dvals(P), key))
+            I.set_attr(popped, "done_flag", V.TRUE)
+            I.set_attr(popped, "result", c.answer)
+            I.set_attr(popped, "has_result", V.TRUE)
+        else:
+            c.deliver(I, c.answer)
+        has2, _ = I.get_field(fut, "has_result")
+        if I.choose(V.truthy(has2), "this_future_was_resolved"):
+            return I.get_field(fut, "result")[0]
+        # the awaited future is not the registered one any more: it can only time out
+    E.checkpoint_nofire(I)
+    I.set_attr(fut, "done_flag", V.TRUE)              # wait_for cancels the future on timeout
+    I.throw("TimeoutError", "")
+
+
+class RouteIncomingModular(Contract):
+    """_route_incoming_message(d): delivers d (ghost `delivered`); never raises"""
+    key = f"{TKEY}._route_incoming_message"
+
+    def apply(self, I, args, kwargs, node):
+        I.c12.deliver(I, args[1])
+        E.checkpoint_nofire(I)
+        return V.NONE
+
+
+class SendRequest(Contract):
+    """_send_message_via_http for a request, per answer mode, under the rely 'the event-stream task runs G at any
+    await': exactly one message bearing the request id reaches the read stream."""
+    key = f"{TKEY}._send_message_via_http"
+    prop = "C12"
+    covers = ("return",)
+
+    def __init__(self, mode):
+        self.mode = mode
+
+    def name(self, clause):
+        return f"C12._send_message_via_http.{clause}[{self.mode}]"
+
+    def setup(self, I):
+        I.c12 = self
+        self.posts = 0
+        self.delivered = []
+        rid = I.fresh("request_id")
+        I.assume(z3.Or(V.is_int(rid), V.is_str(rid)))
+        self.rid = rid
+        self.mid_str = P.to_str(I, rid)
+        msg = I.fresh("message")
+        I.assume(z3.And(V.is_dict(msg), Val.dsize(msg) >= 1, z3.Select(Val.dkeys(msg), K("id")),
+                        z3.Select(Val.dvals(msg), K("id")) == rid))
+        # the server's single answer to this request bears its id
+        ans = I.fresh("answer")
+        I.assume(z3.And(V.is_dict(ans), Val.dsize(ans) >= 1, z3.Select(Val.dkeys(ans), K("id")),
+                        z3.Select(Val.dvals(ans), K("id")) == rid))
+        self.answer = ans
+        pend = I.fresh("pending")
+        I.assume(z3.And(V.is_dict(pend), Val.dsize(pend) >= 0, z3.Not(z3.Select(Val.dkeys(pend), self.mid_str))))
+        timeout = I.fresh("timeout")
+        I.assume(z3.And(V.is_real(timeout), Val.r(timeout) > 0))
+        url = I.fresh("url", S)
+        I.assume(z3.Length(url) > 0)                 # connected transport (live-or-raise, sub-claim 1)
+        self.transport = I.new_object(klass(I), {
+            "_send_client": E.new_env_object(I, SEND_CLIENT), "_message_url": V.VStr(url),
+            "_pending_requests": pend, "_message_lock": E.new_env_object(I, LOCK), "timeout": timeout})
+        I.ghost["answer_state"] = "none"
+        I.checkpoint_hooks = [reader_step]
+        return [self.transport, msg], {}
+
+    def deliver(self, I, d):
+        self.delivered.append(d)
+
+    def count_for_request(self):
+        n = z3.IntVal(0)
+        for d in self.delivered:
+            n = n + z3.If(z3.And(V.is_dict(d), z3.Select(Val.dkeys(d), K("id")), z3.Select(Val.dvals(d), K("id")) == self.rid), 1, 0)
+        return n
+
+    def post(self, I, result):
+        # a stream answer still in flight when the sender has finished is handled by the reader afterwards: the
+        # request is no longer pending, so G delivers it
+        P_, _ = I.get_field(self.transport, "_pending_requests")
+        late = 1 if I.ghost.get("answer_state") == "in_flight" else 0
+        total = self.count_for_request() + late
+        json_body_routed = self.mode == "other_status" and "json_outcome#0" in " ".join(I.trace)
+        synthesised = self.mode in ("silence", "exception") or (self.mode == "other_status" and not json_body_routed)
+        classes = {"synthesised-error-carries-str-of-an-integer-id": z3.And(V.is_int(self.rid), z3.BoolVal(synthesised)),
+                   "error-status-json-body-routed-verbatim-without-a-terminal-error": z3.BoolVal(json_body_routed)}
+        I.oblige(self.name("exactly_one_message_bearing_the_request_id_is_delivered"), total == 1,
+                 watch={"request_id": self.rid, "delivered": V.VList(self.delivered) if self.delivered else V.VList([])},
+                 classes=classes)
+        I.oblige(self.name("request_is_not_left_pending"), z3.Not(z3.Select(Val.dkeys(P_), self.mid_str)))
+        I.oblige(self.name("exactly_one_post"), z3.BoolVal(self.posts == 1))
+
+    def post_exc(self, I, e):
+        I.oblige(self.name(f"no_exception_escapes[{e.cls_name}]"), z3.BoolVal(e.cls_name == "CancelledError"))
+
+
+MODES = ("body_200", "event_then_ack", "ack_then_event", "silence", "other_status", "exception")
+_c12_contracts = C12.contracts
+_c12_install = C12.install
+_c12_modular = C12.modular
+_c12_canaries = C12.canaries
+
+
+def _contracts12(self):
+    return _c12_contracts(self) + [SendRequest(m) for m in MODES]
+
+
+def _install12(self, ctx):
+    _c12_install(self, ctx)
+    for e in (LOCK, POST_RESPONSE, SEND_CLIENT, FUTURE12):
+        ctx.env_class(e)
+    base_wait_for = ctx.extern_handlers["asyncio.wait_for"]
+
+    def wait_for(I, args, kwargs, node):
+        if isinstance(getattr(I, "c12", None), SendRequest):
+            return x_wait_for_future(I, args, kwargs, node)
+        return base_wait_for(I, args, kwargs, node)
+    ctx.extern_handlers["asyncio.wait_for"] = E.is_async(wait_for)
+    ctx.extern_handlers["asyncio.Future"] = lambda I, a, k, n: FUTURE12.construct(I, a, k, n)
+    ctx.extern_handlers["traceback.print_exc"] = lambda I, a, k, n: V.NONE
+
+
+def _modular12(self):
+    m = _c12_modular(self)
+    m[f"{TKEY}._route_incoming_message"] = RouteIncomingModular()
+    return m
+
+
+def _canaries12(self):
+    return _c12_canaries(self) + [
+        Canary("future registered after the POST", SSE,
+               "                async with self._message_lock:\n                    self._pending_requests[message_id] = future\n                    logger.debug(f\"Added pending request: {message_id}\")\n\n                try:\n                    # Send the request\n                    response = await self._send_client.post(\n                        self._message_url, json=message_dict, headers=headers\n                    )\n",
+               "                try:\n                    # Send the request\n                    response = await self._send_client.post(\n                        self._message_url, json=message_dict, headers=headers\n                    )\n                    async with self._message_lock:\n                        self._pending_requests[message_id] = future\n",
+               "exactly_one_message"),
+        Canary("200 body routed twice", SSE,
+               "                        # Route response to incoming stream\n                        await self._route_incoming_message(response_data)\n",
+               "                        # Route response to incoming stream\n                        await self._route_incoming_message(response_data)\n                        await self._route_incoming_message(response_data)\n",
+               "exactly_one_message"),
+        Canary("pending entry never removed", SSE,
+               "                    async with self._message_lock:\n                        self._pending_requests.pop(message_id, None)\n",
+               "                    pass\n", "not_left_pending"),
+    ]
+
+
+C12.contracts = _contracts12
+C12.install = _install12
+C12.modular = _modular12
+C12.canaries = _canaries12
+CHECK = C12()
